@@ -506,6 +506,12 @@ def run_check(ctx, spec):
         except Exception as e:  # harness/driver crashed: the tie is broken
             ctx.notes.append("run error: %r" % (e,))
             ctx.t2.append({"op": "<run>", "impl": "", "model": repr(e)[:500]})
+    elif os.path.exists(C.WVM):
+        # harness/model unavailable: black-box search for a failing input where that makes sense
+        try:
+            props2.blackbox_fallback(ctx)
+        except Exception as e:
+            ctx.notes.append("black-box fallback error: %r" % (e,))
     broken = ctx.broken_ties()
     if broken and not ctx.fails and ctx.machinery_ok:
         # the property is no longer shown: search harder for a concrete failing input
